@@ -36,6 +36,8 @@ struct SockSpec {
     port: u16, // 0 = ephemeral
     mode: RecvMode,
     buf: usize,
+    /// the receiver task starts reading at this host time (backlogs build up before)
+    start_reading_ms: u64,
 }
 
 #[derive(Clone, Debug, PartialEq)]
@@ -130,6 +132,10 @@ struct Live {
 
 async fn receiver(log: Log<Ev>, k: usize, spec: SockSpec, sock: Rc<UdpSocket>) {
     let mut turn = 0u32;
+    let now = turmoil::elapsed().as_millis() as u64;
+    if spec.start_reading_ms > now {
+        tokio::time::sleep(Duration::from_millis(spec.start_reading_ms - now)).await;
+    }
     loop {
         let mut buf = vec![0u8; spec.buf];
         turn += 1;
@@ -308,6 +314,7 @@ fn gen(seed: u64, overflow: bool) -> Scn {
             port: if r.chance(0.3) { 0 } else { r.pick_copy(&fixed_ports) },
             mode: r.pick_copy(&[RecvMode::RecvFrom, RecvMode::RecvFrom, RecvMode::TryRecv, RecvMode::Readable, RecvMode::Mixed]),
             buf: r.pick_copy(&[0usize, 1, 8, 12, 100, 2000, 2000]),
+            start_reading_ms: 0,
         });
     }
     if overflow {
@@ -369,10 +376,20 @@ fn gen(seed: u64, overflow: bool) -> Scn {
         }
         // traffic window (after configuration settled unless racy)
         let t_send0 = if racy { t } else { t_cfg2 + 2 * tick_ms + 1 };
-        let nsends = if overflow { 1 } else { r.range(2, 12) };
-        for _ in 0..nsends {
+        let nsends = if overflow { r.range(1, 3) } else { r.range(2, 12) };
+        let mut first_tgt: Option<usize> = None;
+        for si in 0..nsends {
             let k = r.usize_below(nsocks);
-            let tgt = r.usize_below(nsocks);
+            let mut tgt = r.usize_below(nsocks);
+            if overflow && si > 0 {
+                // further bursts go to a neighbour of the flooded socket (same host, other socket)
+                let f = first_tgt.unwrap();
+                let nb: Vec<usize> = (0..nsocks).filter(|x| *x != f && socks[*x].host == socks[f].host).collect();
+                if !nb.is_empty() {
+                    tgt = nb[r.usize_below(nb.len())];
+                }
+            }
+            first_tgt.get_or_insert(tgt);
             let pr = |r: &mut Rng, k: usize, socks: &Vec<SockSpec>| if socks[k].port == 0 { PortRef::OfSock(k) } else if r.chance(0.5) { PortRef::OfSock(k) } else { PortRef::Lit(socks[k].port) };
             let dst = if socks[k].local_bind {
                 // a localhost-bound socket only talks to its own host's loopback
@@ -387,11 +404,18 @@ fn gen(seed: u64, overflow: bool) -> Scn {
                     _ => Dst::Host(socks[tgt].host, pr(&mut r, tgt, &socks)),
                 }
             };
-            let (len, count) = if overflow { (64, cap as u32 + r.range(1, 6) as u32) } else { (r.pick_copy(&[0usize, 1, 8, 9, 64, 1000, 2000]), r.range(1, 4) as u32) };
+            let (len, count) = if overflow { (64, if si == 0 { cap as u32 + r.range(1, 6) as u32 } else { r.range(1, cap as u64) as u32 }) } else { (r.pick_copy(&[0usize, 1, 8, 9, 64, 1000, 2000]), r.range(1, 4) as u32) };
             let dst = if overflow { Dst::Host(socks[tgt].host, PortRef::OfSock(tgt)) } else { dst };
             script.push((t_send0 + r.range(0, 10), socks[k].host, Act::Send { sock: k, dst, len, count }));
         }
         t = t_send0 + 10 + settle + 2;
+        if overflow && r.chance(0.6) {
+            // nobody reads before every burst has landed: the queues hold the backlog
+            for sp in socks.iter_mut() {
+                sp.start_reading_ms = t;
+            }
+            t += 3 * tick_ms;
+        }
     }
     script.sort_by_key(|x| x.0);
     Scn { tick_ms, min_ms, max_ms, v6, cap, random_order: r.coin(), rng_seed: r.next_u64(), nhosts, socks, script, racy, overflow, end_ms: t + settle + 5 }
@@ -782,7 +806,7 @@ pub fn run(ctx: &Ctx) -> ! {
 fn fin() -> Finish<'static> {
     Finish {
         level: "exploration",
-        rule: "seeded scenarios: 2-4 hosts, IPv4/IPv6, 2-7 sockets (wildcard/localhost bind, fixed/ephemeral ports, recv_from / try_recv_from / readable, buffers 0..2000), 1-4 phases of configuration (bind, drop, connect filter, SO_BROADCAST, multicast loop, join, leave) followed by traffic (unicast by host address / 127.0.0.1 / own address, broadcast, multicast, unbound port, unowned address; payloads 0..2000 bytes), fixed and ranged latencies, random host order; 1/8 overflow scenarios (udp_capacity 1/2/8, burst beyond capacity into an idle socket); 1/4 racy scenarios (configuration concurrent with traffic: only at-most-once and legitimacy asserted); non-trivial = >=3 receipts; distinct = digest of the API history",
+        rule: "seeded scenarios: 2-4 hosts, IPv4/IPv6, 2-7 sockets (wildcard/localhost bind, fixed/ephemeral ports, recv_from / try_recv_from / readable, buffers 0..2000), 1-4 phases of configuration (bind, drop, connect filter, SO_BROADCAST, multicast loop, join, leave) followed by traffic (unicast by host address / 127.0.0.1 / own address, broadcast, multicast, unbound port, unowned address; payloads 0..2000 bytes), fixed and ranged latencies, random host order; 1/8 overflow scenarios (udp_capacity 1/2/8, a burst beyond capacity into one socket and smaller bursts into neighbouring sockets of the same host, receivers reading at once or only after everything has landed); 1/4 racy scenarios (configuration concurrent with traffic: only at-most-once and legitimacy asserted); non-trivial = >=3 receipts; distinct = digest of the API history",
         assumptions: vec![
             "a localhost-bound socket only sends to loopback destinations (other destinations are outside the documented support)".into(),
             "same-host multicast where sender and receiver disagree on the loop flag is undetermined (May)".into(),
